@@ -112,6 +112,11 @@ func NewConsumerGroup(parent, fanOutPath string, q FanOutQueue) (ConsumerGroup, 
 		if ackSeq < ackOfQueue {
 			ackSeq = ackOfQueue
 		}
+		if consumedSeq < ackSeq {
+			// messages <= ack are acknowledged for this group(maybe removed by gc), continue to consume after ack,
+			// keep ack <= consumed
+			consumedSeq = ackSeq
+		}
 	}
 	// persist metadata
 	metaPage.PutUint64(uint64(consumedSeq), consumerGroupConsumedSeqOffset)
